@@ -76,7 +76,10 @@ def point_opts(p) -> typing.List[str]:
 def _analyse_point(args):
     root, lang, p, workdir, std = args
     try:
-        hdr = cast.expand_support(pathlib.Path(root), lang, point_opts(p), pathlib.Path(workdir))
+        # one expansion directory per job: two language standards of the same option point must not share (and rewrite) a header
+        wd = pathlib.Path(workdir) / f"{lang}-{std.replace('+', 'p')}-{point_name(p).replace('=', '').replace(',', '_')}"
+        wd.mkdir(parents=True, exist_ok=True)
+        hdr = cast.expand_support(pathlib.Path(root), lang, point_opts(p), wd)
         extra = ["-DNUNAVUT_ASSERT(x)=assert(x)", "-include", "assert.h"] if p[1] else []
         text = hdr.read_text()
         if lang == "c":
